@@ -477,6 +477,13 @@ func c04Impl(c lib.Case) []string {
 					}
 				}
 			}
+		case len(f) == 2 && f[0] == "nap":
+			// coverage only: real time for the goroutines to reach their next blocking point
+			time.Sleep(time.Duration(min(atoi(f[1]), 20)) * time.Millisecond)
+		case len(f) == 1 && f[0] == "free":
+			// KeyEventBatch answers immediately from now on
+			handler.free.Store(true)
+			handler.releaseAll()
 		case len(f) == 1 && f[0] == "yield":
 			time.Sleep(150 * time.Microsecond)
 		case len(f) == 1 && f[0] == "end":
@@ -528,7 +535,51 @@ func c04Impl(c lib.Case) []string {
 	return out
 }
 
+// c04BackPressure is the schedule family "slow operator + time-out of the following partial batch": the operator is
+// held inside HandleEventBatch for batch N, batch N+1 fills (the router must block in the unbuffered hand-off), one
+// more event for the same operator is read, every timer expires, then the operator is released. If the hand-off did
+// not block the router, the partial batch N+2 could be handed over before N+1; the choice is a coin flip in the
+// operator goroutine's select, hence several rounds per case.
+func c04BackPressure(r *lib.Rng, rounds int) lib.Case {
+	size := r.Range(2, 3)
+	nOps := r.Range(1, 2)
+	key := lib.Pick(r, []string{"61", "6b31", "00"})
+	c := lib.Case{Header: fmt.Sprintf("M C04 %d 8 %d 1", nOps, size), Tags: []string{"backpressure"}, Ops: []string{"free"}}
+	id := 1
+	recs := func(n int) string {
+		var rs []string
+		for ; n > 0; n-- {
+			rs = append(rs, fmt.Sprintf("%d:%s:1", id, key))
+			id++
+		}
+		return "read " + strings.Join(rs, " ")
+	}
+	bar := 1
+	for k := 0; k < rounds; k++ {
+		for o := 0; o < nOps; o++ {
+			c.Ops = append(c.Ops, fmt.Sprintf("hold %d", o))
+		}
+		c.Ops = append(c.Ops, recs(size), "nap 2", recs(size), "nap 2")
+		if r.Chance(1, 3) {
+			c.Ops = append(c.Ops, fmt.Sprintf("barrier %d", bar)) // a broadcast in the overtaking partial batch
+			bar++
+		} else {
+			c.Ops = append(c.Ops, recs(1))
+		}
+		c.Ops = append(c.Ops, "nap 2", "fire -1", "nap 2", "fire -1", "nap 2")
+		for o := 0; o < nOps; o++ {
+			c.Ops = append(c.Ops, fmt.Sprintf("go %d", o))
+		}
+		c.Ops = append(c.Ops, "nap 2", "fire -1", "nap 1")
+	}
+	c.Ops = append(c.Ops, "end")
+	return c
+}
+
 func c04Gen(r *lib.Rng, tier string, i int) lib.Case {
+	if i%8 == 3 {
+		return c04BackPressure(r, r.Range(4, 8))
+	}
 	nOps := r.Range(1, 3)
 	kgc := lib.Pick(r, []int{4, 8, 16, 256})
 	maxSize := r.Range(1, 4)
@@ -603,6 +654,7 @@ func propC04() *lib.Prop {
 				// D17 through the runner: time-out flusher parked between Flush and Reserve while the read loop fills the next batch
 				{Header: "M C04 2 8 2 1", Tags: []string{"D17"}, Ops: []string{"read 1:61:1", "yield", "park mid", "fire 0", "await mid", "read 2:61:1 3:61:1", "yield", "yield", "yield", "rel mid", "yield", "fin 1", "yield", "fin 0", "barrier 1", "end"}},
 				{Header: "M C04 1 4 2 1", Tags: []string{"D17"}, Ops: []string{"read 1:61:1", "yield", "park mid", "fire 0", "await mid", "read 2:62:1 3:61:1", "yield", "yield", "yield", "rel mid", "end"}},
+				c04BackPressure(lib.NewRng(41), 8), c04BackPressure(lib.NewRng(42), 8), c04BackPressure(lib.NewRng(43), 8),
 				{Header: "M C04 1 4 1 1", Tags: []string{"basic"}, Ops: []string{"read 1:61:1 2:62:2 3:61:0", "barrier 1", "read 4:61:1", "end"}},
 			}
 		},
